@@ -4,7 +4,7 @@ import stat
 import time
 import typing
 
-from pygopherd import gopherentry, handlers
+from pygopherd import GopherExceptions, gopherentry, handlers
 from pygopherd.handlers.base import BaseHandler
 
 
@@ -49,14 +49,24 @@ class DirHandler(BaseHandler):
         for file in self.files:
             # We look up the appropriate handler for this object, and ask
             # it to give us an entry object.
-            handler = handlers.HandlerMultiplexer.getHandler(
-                self.selectorbase + "/" + file,
-                self.searchrequest,
-                self.protocol,
-                self.config,
-                vfs=self.vfs,
-            )
-            fileentry = handler.getentry()
+            # One child that cannot be served (dangling link, special file,
+            # removed since the directory was read, name rejected by the
+            # selector filter) must not take down the listing of its
+            # directory: leave it out.
+            try:
+                handler = handlers.HandlerMultiplexer.getHandler(
+                    self.selectorbase + "/" + file,
+                    self.searchrequest,
+                    self.protocol,
+                    self.config,
+                    vfs=self.vfs,
+                )
+            except GopherExceptions.FileNotFound:
+                continue
+            try:
+                fileentry = handler.getentry()
+            except OSError:
+                continue
             self.prep_entriesappend(file, handler, fileentry)
 
     def prep_entriesappend(
